@@ -29,7 +29,7 @@ LEVEL = META['level']
 RULE = ('a case = one (stream, chunking) parsed, or one (stream, truncation offset, chunking) delivered to the server; chunkings/offsets enumerated as described; distinct by the tuple; '
         'non-trivial = the stream has >= 2 frames or the cut falls inside a frame')
 ASSUMPTIONS = ['the server is given 3 s to close a connection after EOF (wall-clock only guards; exceeding it is inconclusive, not a violation)']
-REQUIRED = ['parser:truncated-then-eof', 'trunc:long-stream', 'parser:source-rememberable', 'parser:source-chainable', 'parser:streams', 'parser:two-way-splits', 'parser:bytewise', 'parser:k-way', 'parser:frame-spanning-recv-blocks', 'parser:zero-length-payload',
+REQUIRED = ['monitor:served-while-frame-pending', 'parser:truncated-then-eof', 'trunc:long-stream', 'parser:source-rememberable', 'parser:source-chainable', 'parser:streams', 'parser:two-way-splits', 'parser:bytewise', 'parser:k-way', 'parser:frame-spanning-recv-blocks', 'parser:zero-length-payload',
             'client:streams', 'client:responses', 'client:nop-frames', 'trunc:trials', 'trunc:inside-header', 'trunc:inside-payload', 'trunc:on-frame-boundary', 'trunc:inside-write-frame',
             'trunc:register-frame', 'monitor:state-equals-complete-frames-only', 'monitor:second-session-alive', 'monitor:fresh-session', 'monitor:connection-table-baseline',
             'monitor:reply-count']
@@ -346,6 +346,57 @@ def read_everything(client, model, ctx, wit, who):
     return True
 
 
+def pending_frame(frames, t):
+    """does a stream cut at t leave a partially delivered frame behind?"""
+    pos = 0
+    for f in frames:
+        if pos < t < pos + len(f):
+            return True
+        pos += len(f)
+    return False
+
+
+def probe_while_pending(ctx, sim, second, pending_sock, model, wit):
+    """A peer has delivered part of a frame and is idle.  The long-lived second session and a brand-new session must be served meanwhile.
+    The verdict is causal, not a deadline: a reply that does not come within a 10 s watchdog but does come once the idle peer ends its
+    stream was held back by the unfinished frame."""
+    from vlib import refcodec as rc, simcheck, simdrv
+    rq = {'path': {'segment': [{'symbolic': 'W'}]}, 'read_tag': {'elements': 8}}
+    fresh = None
+    try:
+        second.send(rc.rr_frame(rc.enc_unconnected_send(rc.enc_request(rq)), second.session, b'PENDING0'))
+        fresh = simdrv.RawClient(sim.address)
+        fresh.send(rc.register_frame(b'PENDING1'))
+        got = {'second': second.recv_frame(10.0), 'fresh': None}
+        got['fresh'] = fresh.recv_frame(10.0 if got['second'] is not None else 0.5)
+        ctx.count('monitor:served-while-frame-pending')
+        if got['second'] is None or got['fresh'] is None:
+            who = 'the long-lived second session' if got['second'] is None else 'a new session (Register)'
+            try:
+                pending_sock.shutdown(socket.SHUT_WR)
+            except OSError:
+                pass
+            late = second.recv_frame(10.0) if got['second'] is None else fresh.recv_frame(10.0)
+            if late is not None:
+                ctx.violation('other-session-held-by-incomplete-frame', '%s got no reply while another connection had delivered part of a frame and was idle; '
+                              'the reply came once that connection ended its stream' % who, wit)
+            else:
+                ctx.violation('other-session-broken-by-truncated-stream', '%s got no reply while another connection had delivered part of a frame, nor after it ended' % who, wit)
+            return False
+        fr = rc.dec_frame(got['second'])
+        mm = ['encapsulation status %d' % fr['status']] if fr['status'] else simcheck.reply_mismatch(rc.dec_reply(fr['cip']), model.apply(rq))
+        if mm:
+            ctx.violation('incomplete-frame-had-an-effect', 'second session reads W while a frame is pending elsewhere: %s' % '; '.join(mm[:2]), wit)
+            return False
+        if rc.dec_frame(got['fresh'])['status'] != 0:
+            ctx.violation('other-session-broken-by-truncated-stream', 'Register refused while a frame is pending elsewhere', wit)
+            return False
+        return True
+    finally:
+        if fresh is not None:
+            fresh.close()
+
+
 def trunc_trial(ctx, sim, second, rng, reqs, frames_of, t, chunk_mode, register_cut=None):
     """deliver Register fully (or cut at register_cut), then stream[:t] in a chunking, then EOF"""
     from vlib import refcodec as rc, arraymodel, simcheck, simdrv
@@ -392,9 +443,37 @@ def trunc_trial(ctx, sim, second, rng, reqs, frames_of, t, chunk_mode, register_
                 ctx.violation('connection-dropped-during-valid-stream', 'the simulator closed the connection while a valid request stream was being delivered (%s, %d chunks): %r' % (
                     chunk_mode, len(chunks), exc), wit)
                 return
-        sock.shutdown(socket.SHUT_WR)
-        # collect replies until the server closes
         buf = b''
+        # while the unfinished frame is pending (before EOF): other sessions and the listener keep working
+        pending = (0 < register_cut < 28) if register_cut is not None else pending_frame(frames, t)
+        if pending:
+            if register_cut is None:
+                # first take the replies of the wholly delivered frames, so the model and the simulator agree on what has been applied
+                want_n, pos = 0, 0
+                for f in frames:
+                    pos += len(f)
+                    want_n += pos <= t
+                sock.settimeout(20)
+                try:
+                    while len(rc.split_frames(buf)[0]) < want_n:
+                        chunk = sock.recv(65536)
+                        if not chunk:
+                            break
+                        buf += chunk
+                except socket.timeout:
+                    pass
+                for k in range(min(want_n, len(rc.split_frames(buf)[0]))):
+                    model.apply(reqs[k])
+            ok = probe_while_pending(ctx, sim, second, sock, model, wit)
+            if register_cut is None:
+                model = arraymodel.Model(CFG)       # replayed in full below, against the replies
+            if not ok:
+                return
+        try:
+            sock.shutdown(socket.SHUT_WR)
+        except OSError:
+            pass
+        # collect replies until the server closes
         sock.settimeout(20)         # a watchdog for "never", not a performance requirement
         closed = False
         try:
